@@ -248,3 +248,72 @@ Theorem C12_pinned_session_bypasses_filter_refuted :
     In (e_id e, to_val e) (tmem (fst (established tf Ip4 pinned c (new_table loc) e true 1))).
 Proof. exact pinned_session_bypasses_filter. Qed.
 Print Assumptions C12_pinned_session_bypasses_filter_refuted.
+
+(* Configuration plumbing (Model/Config.v, transcribing ConfigBuilder, Config, Discv5::new / Discv5::start,
+   tied to the code by the `glue` correspondence run on real loopback sockets): the parameters the theorems
+   above take as given are the ones the application configured - the value set last through the builder,
+   or the default - at every component they are handed to. *)
+Require Discv5V.Generated.Params Discv5V.Model.Config Discv5V.Proofs.Config.
+Theorem C12_configured_table_filter_reaches_the_service : forall ops v, Discv5V.Model.Config.start_node ops = Some v ->
+  Discv5V.Model.Config.VN (Discv5V.Model.Config.c_table_filter (Discv5V.Model.Config.nv_built v)) = Discv5V.Model.Config.configured ops Discv5V.Model.Config.FTableFilter /\
+  Discv5V.Model.Config.VN (Discv5V.Model.Config.c_table_filter (Discv5V.Model.Config.nv_service v)) = Discv5V.Model.Config.configured ops Discv5V.Model.Config.FTableFilter /\
+  Discv5V.Model.Config.VN (Discv5V.Model.Config.c_table_filter (Discv5V.Model.Config.nv_handler v)) = Discv5V.Model.Config.configured ops Discv5V.Model.Config.FTableFilter.
+Proof. exact Discv5V.Proofs.Config.effective_table_filter. Qed.
+Print Assumptions C12_configured_table_filter_reaches_the_service.
+Theorem C12_configuration_example : exists v, Discv5V.Model.Config.start_node Discv5V.Proofs.Config.example_ops = Some v.
+Proof. destruct Discv5V.Proofs.Config.example_starts as [v [H _]]. exists v. exact H. Qed.
+Print Assumptions C12_configuration_example.
+
+(* Routing-table level: whatever sequence of table operations runs, every stored record (pending slot
+   included) sits under the id it belongs to, as long as every operation offers records under their own
+   ids (Proofs/KBucketGap.v; the `kb --focus rec` monitors state the same of the real table). *)
+Require Discv5V.Model.KBucket Discv5V.Proofs.KBMembers Discv5V.Proofs.KBucketGap.
+Module C12Table.
+Import Discv5V.Model.KBucket.
+Theorem C12_table_records_sit_under_their_own_ids : forall (owner : N -> N) fixed c loc ops,
+  Forall (fun o => forall k v, In (k, v) (Discv5V.Proofs.KBucketGap.offered (fst o)) -> owner (vid v) = k) ops ->
+  forall k v, In (k, v) (Discv5V.Proofs.KBMembers.tmem (fst (run fixed c (new_table loc) ops))) -> owner (vid v) = k.
+Proof. exact Discv5V.Proofs.KBucketGap.values_keyed_reachable. Qed.
+Print Assumptions C12_table_records_sit_under_their_own_ids.
+End C12Table.
+
+(* The record the service vouches for when the handler asks who a packet's sender is (Service::find_enr,
+   Model/Admission.v find_enr, compared with the real service on generated who-are-you queries): its id is
+   the id asked for, the routing table's record takes precedence over whatever a running lookup was told,
+   and an id known to neither gets no record. *)
+Require Discv5V.Model.KBucket Discv5V.Model.Nodes Discv5V.Model.Admission Discv5V.Proofs.Admission.
+Module C12FindEnr.
+Import Discv5V.Model.KBucket Discv5V.Model.Nodes Discv5V.Model.Admission.
+Theorem C12_service_vouches_only_with_a_record_of_the_id_asked_for :
+  forall (rec_of : N -> enr) (tf : enr -> bool) (mode : ip_mode) (c : config) (t : table)
+         (u : list enr) (id now : N) (e : enr),
+  Discv5V.Proofs.Admission.Adm rec_of tf mode t ->
+  snd (find_enr rec_of c t u id now) = Some e -> e_id e = id.
+Proof. exact Discv5V.Proofs.Admission.find_enr_id. Qed.
+Print Assumptions C12_service_vouches_only_with_a_record_of_the_id_asked_for.
+Theorem C12_stored_record_takes_precedence_over_lookup_hearsay :
+  forall (rec_of : N -> enr) (c : config) (t : table) (u u' : list enr) (id now : N) (e : enr),
+  present_rec rec_of (fst (t_entry c t id ALook now)) id = Some e ->
+  snd (find_enr rec_of c t u id now) = snd (find_enr rec_of c t u' id now).
+Proof. exact Discv5V.Proofs.Admission.find_enr_table_first_any_queries. Qed.
+Print Assumptions C12_stored_record_takes_precedence_over_lookup_hearsay.
+Theorem C12_no_record_for_an_unknown_id :
+  forall (rec_of : N -> enr) (c : config) (t : table) (u : list enr) (id now : N),
+  present_rec rec_of (fst (t_entry c t id ALook now)) id = None ->
+  (forall e : enr, In e u -> e_id e <> id) ->
+  snd (find_enr rec_of c t u id now) = None.
+Proof. exact Discv5V.Proofs.Admission.find_enr_unknown. Qed.
+Print Assumptions C12_no_record_for_an_unknown_id.
+End C12FindEnr.
+
+(* The receive task in front of the handler (RecvHandler::handle_inbound, Model/Limiter.v recv_inbound,
+   compared with the real task through the virtual handler on generated datagrams): *)
+Require Discv5V.Model.Limiter Discv5V.Proofs.Limiter.
+Module C12Recv.
+Import Discv5V.Model.Limiter.
+Theorem C12_receive_task_forwards_the_datagram_source : forall (f : pfilter) (p : pbl) (expected : list saddr) (src : saddr) (packet : option pkind) (now : N),
+  let fwd := snd (recv_inbound f p expected src packet now) in
+  fwd = normalise_src src /\ sa_ip fwd = sa_ip src /\ sa_port fwd = sa_port src /\ sa_flow fwd = 0%N /\ sa_scope fwd = 0%N.
+Proof. exact Discv5V.Proofs.Limiter.inbound_forwards_normalised_source. Qed.
+Print Assumptions C12_receive_task_forwards_the_datagram_source.
+End C12Recv.
